@@ -73,4 +73,13 @@ def disruptOk (r : String) (wasMember isMember : Bool) (before after : Outcome) 
     | .node a, .none => wasMember && a.repr == r
     | _, _ => false
 
+/-- the collision bucket a lookup of `k` lands on: `h.ring[h.keys[sort.Search(…) % len(h.keys)]]` -/
+def landing (H : Hasher) (s : CH) (k : Node) : List Node :=
+  bucket s.ring (s.keys.getD (searchGE s.keys (H.key k.repr) % s.keys.length) 0)
+
+/-- LOCAL precondition of minimal disruption for one lookup key: the virtual node serving it is not shared by
+several nodes, before or after the operation -/
+def landsAlone (H : Hasher) (s s' : CH) (k : Node) : Bool :=
+  decide ((landing H s k).length ≤ 1) || decide ((landing H s' k).length ≤ 1)
+
 end GoZero.C15
